@@ -179,7 +179,7 @@ class LSFScriptAdapter(SchedulerScriptAdapter):
                          " where 'rs per node' = %s, 'nodes' = %s, and"
                          " 'tasks per rs' = %s",
                          procs,
-                         rs_per_node*nodes*tasks_per_rs,
+                         int(rs_per_node)*int(nodes)*int(tasks_per_rs),
                          rs_per_node,
                          nodes,
                          tasks_per_rs)
